@@ -143,7 +143,7 @@ func project(s sub, rs routeSet, counterpart *sub) tsub {
 		for _, a := range args {
 			out.Args = append(out.Args, chars(a))
 		}
-	case "405":
+	case "405", "options204":
 		for _, m := range strings.Split(s.Allow, ",") {
 			if m = strings.TrimSpace(m); m != "" {
 				out.Allow = append(out.Allow, m)
@@ -331,7 +331,9 @@ func Check(r *core.Run) error {
 	sets = append(sets,
 		routeSet{{T: []string{"/", "a"}, Ms: all8}, {T: []string{"/", "a", "/", P}, Ms: []string{"HEAD", "OPTIONS", "PUT"}},
 			{T: []string{"/", "b"}, Ms: []string{"GET", "HEAD", "OPTIONS"}}, {T: []string{"/", "b", "b"}, Ms: []string{"GET", "OPTIONS"}}},
-		routeSet{{T: []string{"/", P}, Ms: []string{"DELETE", "OPTIONS", "PATCH", "TRACE"}}, {T: []string{"/", "a"}, Ms: []string{"HEAD", "OPTIONS"}}})
+		routeSet{{T: []string{"/", P}, Ms: []string{"DELETE", "OPTIONS", "PATCH", "TRACE"}}, {T: []string{"/", "a"}, Ms: []string{"HEAD", "OPTIONS"}}},
+		// templates without an OPTIONS operation: the recorded preflight answer
+		routeSet{{T: []string{"/", "a"}, Ms: []string{"GET", "HEAD", "PUT"}}, {T: []string{"/", "a", "/", P}, Ms: []string{"DELETE"}}})
 	return serveSets(r, known, sets, paths)
 }
 
